@@ -51,6 +51,28 @@ def sanitize_defaults(recipe):
                 ok = False
             if not ok:
                 del kw["default"]
+    # a declared property that also matches a patternProperties regex is governed by both schemas:
+    # its default must be valid for the pattern schema too (else it is legitimately returned as-is)
+    import re as _re
+
+    for node in idx.values():
+        patterns = (node.get("sub") or {}).get("patternProperties")
+        if not isinstance(patterns, dict):
+            continue
+        for p in node.get("props") or []:
+            src = p["source"] if p.get("source") is not None else p["name"]
+            el = p["element"] if "kind" in p["element"] else idx[p["element"]["ref"]]
+            if "default" not in el.get("kw", {}):
+                continue
+            for pat, sub in patterns.items():
+                if _re.search(pat, src):
+                    try:
+                        ok = ref6.validate(R.to_schema(sub, idx), copy.deepcopy(el["kw"]["default"]), _DEV) is True
+                    except RecursionError:
+                        ok = False
+                    if not ok:
+                        del el["kw"]["default"]
+                        break
     return recipe
 
 
